@@ -24,5 +24,5 @@ HSpec == HInit /\ [][HNext]_<<vars, hist>>
 View == vars
 Bound == Len(hist) <= D
 Emit == (Export /\ pc = "idle" /\ Len(hist) = D) =>
-            PrintT(<<"BEH", ToJson([added |-> added, hist |-> hist, ver |-> ver])>>)
+            PrintT(<<"BEH", ToJson([added |-> added, nlate |-> nlate, hist |-> hist, ver |-> ver])>>)
 =============================================================================
